@@ -67,6 +67,12 @@ def as_array(rows, k, dt="float64"):
 
 
 DTS = ["int64", "float64", "int32", "float32"]
+NPI = [None, "int64", "int32", "intp", "uint8"]  # spelling of an integer position: Python int or a NumPy integer scalar
+
+
+def np_int(i, code):
+    name = NPI[code % len(NPI)]
+    return i if name is None else getattr(np, name)(i)
 
 
 def dtype_for(code, t, enabled):
@@ -125,7 +131,7 @@ def _fd(op, **kw):
 
 
 EXPR = st.one_of(
-    st.fixed_dictionaries({"t": st.just("i"), "v": small}),
+    st.fixed_dictionaries({"t": st.just("i"), "v": small, "np": st.sampled_from([0, 0, 1, 2, 3, 4])}),
     st.fixed_dictionaries(
         {"t": st.just("s"), "a": small, "b": small, "step": st.sampled_from([1, 1, 1, 2, -1]), "form": st.integers(0, 5)}
     ),
@@ -169,6 +175,32 @@ def _av():
         shift=idx3, delta=st.sampled_from([0, 0, 0, 1, -1]), seed=seeds, as_array=st.booleans(),
     )
 
+# mutations applied to a SLICE RESULT (and to its parent while the slice is alive): replacements only - cell / list
+# assignment, set_data, Vector-valued assignment of a fresh Vector, the data setter, add / remove fields, the
+# flatten -> set_flattened round trip, reads; "parent_set_cell" replaces a cell of the parent, "copy_set" replaces a
+# cell in a copy() of the slice
+_NPI = st.sampled_from([0, 0, 1, 2, 3, 4])
+SUB = st.one_of(
+    _fd("set_cell", idx=idx3, rows=nrows, seed=seeds, via=st.sampled_from(["setitem", "set_data"]), bad=st.none(), dt=st.just(0), np=_NPI),
+    _fd("set_cell", idx=idx3, rows=nrows, seed=seeds, via=st.sampled_from(["setitem", "set_data"]), bad=st.none(), dt=st.just(0), np=_NPI),
+    _fd("parent_set_cell", idx=idx3, rows=nrows, seed=seeds, via=st.sampled_from(["setitem", "set_data"]), bad=st.none(), dt=st.just(0), np=_NPI),
+    _fd("parent_set_cell", idx=idx3, rows=nrows, seed=seeds, via=st.sampled_from(["setitem", "set_data"]), bad=st.none(), dt=st.just(0), np=_NPI),
+    _fd("copy_set", idx=idx3, rows=nrows, seed=seeds),
+    _fd("set_many", exprs=EXPRS3, multi=small, seed=seeds, via=st.sampled_from(["setitem", "set_data"]), bad=BAD, bad_pos=small, dt=st.just(0)),
+    _fd("get_many", exprs=EXPRS3, via=st.sampled_from(["slice", "get_data"]), drop=st.integers(0, 2), bare=st.booleans()),
+    _fd("add_fields", names=st.lists(st.integers(0, len(NAME_POOL) - 1), min_size=1, max_size=2), form=st.sampled_from(["str", "list"])),
+    _fd("remove_fields", picks=st.lists(st.integers(0, 8), min_size=1, max_size=2), form=st.sampled_from(["str", "list"])),
+    _fd("field_roundtrip", f=small),
+)
+
+
+def _slice_mutate():
+    return _fd(
+        "slice_mutate", slot=slots, exprs=EXPRS3, multi=small, drop=st.integers(0, 2), bare=st.booleans(),
+        use_reg=st.sampled_from([False, False, True]), reg=st.integers(0, 1), subs=st.lists(SUB, min_size=1, max_size=4),
+    )
+
+
 def _kept_create():
     # Vector.from_data(L) where L is a list object the harness keeps, mutates and reuses
     return _fd(
@@ -178,9 +210,9 @@ def _kept_create():
 
 
 STEP = st.one_of(
-    _fd("set_cell", slot=slots, idx=idx3, rows=nrows, seed=seeds, via=st.sampled_from(["setitem", "set_data"]), bad=BAD, dt=DT),
-    _fd("set_cell", slot=slots, idx=idx3, rows=nrows, seed=seeds, via=st.sampled_from(["setitem", "set_data"]), bad=BAD, dt=DT),
-    _fd("get_cell", slot=slots, idx=idx3, via=st.sampled_from(["getitem", "get_data"])),
+    _fd("set_cell", slot=slots, idx=idx3, rows=nrows, seed=seeds, via=st.sampled_from(["setitem", "set_data"]), bad=BAD, dt=DT, np=st.sampled_from([0, 0, 1, 2, 3, 4])),
+    _fd("set_cell", slot=slots, idx=idx3, rows=nrows, seed=seeds, via=st.sampled_from(["setitem", "set_data"]), bad=BAD, dt=DT, np=st.sampled_from([0, 0, 1, 2, 3, 4])),
+    _fd("get_cell", slot=slots, idx=idx3, via=st.sampled_from(["getitem", "get_data"]), np=st.sampled_from([0, 0, 1, 2, 3, 4])),
     _fd(
         "set_many", slot=slots, exprs=EXPRS3, multi=small, seed=seeds, via=st.sampled_from(["setitem", "set_data"]),
         bad=BAD, bad_pos=small, dt=DT,
@@ -197,6 +229,7 @@ STEP = st.one_of(
     ),
     _fd("get_many", slot=slots, exprs=EXPRS3, via=st.sampled_from(["slice", "slice", "get_data"]), drop=st.integers(0, 2), bare=st.booleans()),
     _kept_create(), _kept_create(),
+    _slice_mutate(), _slice_mutate(), _slice_mutate(),
     _fd("kept_mutate", kind=st.sampled_from(["replace", "replace", "append", "clear", "pop", "insert"]), i=small, rows=nrows, seed=seeds),
     _fd("kept_mutate", kind=st.sampled_from(["replace", "replace", "append", "clear", "pop", "insert"]), i=small, rows=nrows, seed=seeds),
     _fd(
@@ -238,7 +271,7 @@ def resolve_expr(e, n, assign):
     t = e["t"]
     if t == "i":
         i = e["v"] % n
-        return ("i", i), i
+        return ("i", i), np_int(i, e.get("np", 0))
     if t == "s":
         lo = e["a"] % n
         hi = lo + 1 + (e["b"] % (n - lo))
@@ -272,6 +305,11 @@ def _fmt_expr(me):
     if me[0] == "a":
         return "array(%s)" % (me[1],)
     return repr(me[1])
+
+
+def _fmt_key(mes, ses):
+    """index expression as handed to the Vector (shows NumPy integer scalars as such)"""
+    return ", ".join(repr(se) if me[0] == "i" else _fmt_expr(me) for me, se in zip(mes, ses))
 
 
 # ------------------------------------------------------------------------------------------------
@@ -353,6 +391,7 @@ class History:
         self.dropped = []
         self.mixed_dtypes = bool(case.get("init", {}).get("mixed_dtypes", False))
         self.kept = None  # {"L": the harness-owned list handed to from_data / .data, "rows", "dts", "lists", "k"}
+        self.views = set()  # id() of live entries that are slice results (share cell ARRAYS with their parent)
         self.held = [None, None]  # (owner Vector, index sets, sliced Vector) kept by `hold` steps
         self.nstep = 0
         self.classes = []
@@ -408,6 +447,8 @@ class History:
             if p:
                 self.viol("%s: vector #%d: %s" % (when, s, p))
         for s, (v, m) in enumerate(self.live):
+            if id(v) in self.views:
+                continue  # a slice result holds its parent's cell arrays by design (name suffix "[view]")
             for idx in m.order():
                 if m.cells[idx] is None:
                     continue
@@ -475,6 +516,12 @@ class History:
     def _idx(self, step, m):
         return [step["idx"][d] % m.shape[d] for d in range(m.ndim)]
 
+    @staticmethod
+    def _sut_idx(step, idx):
+        """the same positions as handed to the Vector: Python ints, or (np != 0) a rotation of NumPy integer types"""
+        code = step.get("np", 0)
+        return [np_int(i, code + d) if code else i for d, i in enumerate(idx)]
+
     def op_set_cell(self, step):
         s, v, m = self.pick(step)
         idx = self._idx(step, m)
@@ -482,13 +529,14 @@ class History:
         rows = rows_dt(step["seed"], step["rows"], m.k, dt)
         bad = step["bad"]
         arr = bad_array(bad, step["seed"], step["rows"], m.k) if bad else as_array(rows, m.k, dt)
-        key = idx[0] if m.ndim == 1 else tuple(idx)
+        sidx = self._sut_idx(step, idx)
+        key = sidx[0] if m.ndim == 1 else tuple(sidx)
         if step["via"] == "setitem":
             what = "v#%d[%r] = array%r" % (s, key, arr.shape)
             fn = lambda: v.__setitem__(key, arr)  # noqa: E731
         else:
-            what = "v#%d.set_data(array%r, *%r)" % (s, arr.shape, idx)
-            fn = lambda: v.set_data(arr, *idx)  # noqa: E731
+            what = "v#%d.set_data(array%r, *%r)" % (s, arr.shape, sidx)
+            fn = lambda: v.set_data(arr, *sidx)  # noqa: E731
         ok, _ = self.call(what, fn, ValueError if bad else None)
         if bad:
             if ok:
@@ -504,12 +552,13 @@ class History:
     def op_get_cell(self, step):
         s, v, m = self.pick(step)
         idx = self._idx(step, m)
+        sidx = self._sut_idx(step, idx)
         if step["via"] == "getitem":
-            what = "v#%d[%r]" % (s, tuple(idx))
-            got = self.must(what, lambda: _get_cell(v, idx))
+            what = "v#%d[%r]" % (s, tuple(sidx))
+            got = self.must(what, lambda: _get_cell(v, sidx))
         else:
-            what = "v#%d.get_data(*%r)" % (s, idx)
-            got = self.must(what, lambda: v.get_data(*idx))
+            what = "v#%d.get_data(*%r)" % (s, sidx)
+            got = self.must(what, lambda: v.get_data(*sidx))
         p = cell_problem(got, m.cells[tuple(idx)], m.k)
         if p:
             self.viol("%s %s" % (what, p))
@@ -527,7 +576,7 @@ class History:
         for d in range(nd - min(drop, nd - 1)):
             e = step["exprs"][d]
             if one_multi and d != md and e["t"] != "i":
-                e = {"t": "i", "v": e["v"][0] if e["t"] in "la" else e["a"]}
+                e = {"t": "i", "v": e["v"][0] if e["t"] in "la" else e["a"], "np": e.get("form", len(e.get("v", [])))}
             if force_multi and d == md and e["t"] == "i":
                 i = e["v"] % m.shape[d]
                 me, se = ("s", (i, i + 1, None)), slice(i, i + 1)
@@ -563,7 +612,7 @@ class History:
             self.classes.append("cell-dtype:list")
         if bad:
             arrs[bp] = bad_array(bad, step["seed"], 1, m.k)
-        desc = ", ".join(_fmt_expr(e) for e in mes)
+        desc = _fmt_key(mes, ses)
         if via == "setitem":
             key = ses[0] if (m.ndim == 1 and step["multi"] % 2) else tuple(ses)
             what = "v#%d[%s] = <list of %d arrays>" % (s, desc, len(arrs))
@@ -594,7 +643,7 @@ class History:
         Vector = _V()
         if step["via"] == "get_data":
             mes, ses = self._resolve(step, m, assign=False)
-            what = "v#%d.get_data(%s)" % (s, ", ".join(_fmt_expr(e) for e in mes))
+            what = "v#%d.get_data(%s)" % (s, _fmt_key(mes, ses))
             got = self.must(what, lambda: v.get_data(*ses))
             exp = m.get_many(mes)
             if all(e[0] == "i" for e in mes) or len(exp) == 1 and not isinstance(got, list):
@@ -613,7 +662,7 @@ class History:
             return
         mes, ses = self._resolve(step, m, assign=False, drop=step["drop"])
         key = ses[0] if (len(ses) == 1 and step["bare"]) else tuple(ses)
-        what = "v#%d[%s]" % (s, ", ".join(_fmt_expr(e) for e in mes))
+        what = "v#%d[%s]" % (s, _fmt_key(mes, ses))
         got = self.must(what, lambda: v[key])
         if len(mes) == m.ndim and all(e[0] == "i" for e in mes):
             p = cell_problem(got, m.cells[tuple(e[1] for e in mes)], m.k)
@@ -730,6 +779,100 @@ class History:
         if any(d != "float64" for d in dts):
             m.mixed = True
         self.flags["assign"] = True
+
+    def _observed_model(self, vec, what):
+        """reference model of a slice result built from what it returns NOW through its public API (a held slice
+        shares cell arrays with its parent, so its content may have followed in-place field arithmetic there)"""
+        shape = tuple(vec.shape)
+        k = len(vec.fields)
+        om = VectorModel(shape, list(vec.fields), list(vec.units))
+        for idx in om.order():
+            c = _get_cell(vec, idx)
+            if c is None:
+                continue
+            if not isinstance(c, np.ndarray) or c.ndim != 2 or c.shape[1] != k:
+                self.viol("%s: cell %r is %s, not a 2-D array with %d columns" % (what, idx, _short(c), k))
+            om.cells[idx] = [[float(x) for x in r] for r in c.tolist()]
+        return om
+
+    def op_slice_mutate(self, step):
+        """s = v[expr] (full or partial index tuple, repeated positions welcome), or a slice held from an earlier step;
+        then a few REPLACEMENT-type mutations on s and on its parent.  A slice result is a new Vector with its own cell
+        containers: replacing a cell (or the fields) of s changes neither the parent nor any other cell of s - in
+        particular not the twin row produced by a repeated index - and vice versa; only the cell ARRAYS are shared."""
+        ent, pslot = None, None
+        if step["use_reg"]:
+            for r in (step["reg"], 1 - step["reg"]):
+                if self.held[r] is not None:
+                    ent = self.held[r]
+                    pslot = next((i for i, (lv, _lm) in enumerate(self.live) if lv is ent[0]), None)
+                    break
+        if ent is not None:
+            sv = ent[2]
+            sm = self._observed_model(sv, "slice held from an earlier step")
+            self.classes.append("slice_mutate:held" + ("" if pslot is not None else ":parent-gone"))
+        else:
+            pslot, v, m = self.pick(step)
+            mes, ses = self._resolve(step, m, assign=False, force_multi=True, drop=step["drop"])
+            key = ses[0] if (len(ses) == 1 and step["bare"]) else tuple(ses)
+            what = "s = v#%d[%s]" % (pslot, _fmt_key(mes, ses))
+            sv = self.must(what, lambda: v[key])
+            if not isinstance(sv, _V()):
+                self.viol("%s returned %s, expected a Vector" % (what, _short(sv)))
+            sm = m.select(mes)
+            p = vec_problem(sv, sm, meta=False)
+            if p:
+                self.viol("%s (source shape %r) returned a Vector with %s" % (what, m.shape, p))
+            sm.metadata = copy.deepcopy(sv.metadata) if isinstance(sv.metadata, dict) else {}
+            sets = m.addressed(mes)[0]
+            self.classes.append("slice_mutate:%dd:%s%s" % (m.ndim, "partial" if len(mes) < m.ndim else "full",
+                                                           ":repeated-index" if any(len(set(x)) < len(x) for x in sets) else ""))
+        if ent is not None:
+            sm.metadata = copy.deepcopy(sv.metadata) if isinstance(sv.metadata, dict) else {}
+        self.flags["slice"] = True
+        # the slice joins the live vectors for the duration of this step (compared after every sub-step, like them)
+        self.live.append([sv, sm])
+        self.views.add(id(sv))
+        ts = len(self.live) - 1
+        try:
+            for sub in step["subs"]:
+                sub = dict(sub)
+                op = sub["op"]
+                if op == "parent_set_cell":
+                    if pslot is None:
+                        continue
+                    sub["slot"] = pslot
+                    self.op_set_cell(sub)
+                    self.classes.append("slice_mutate:parent-cell-replaced")
+                elif op == "copy_set":
+                    self._copy_set(sv, sm, sub)
+                else:
+                    sub["slot"] = ts
+                    r = getattr(self, "op_" + op)(sub)
+                    if r is not False:
+                        self.classes.append("slice_mutate:" + op)
+                self.check_all("after %s on %s" % (op, "the parent of slice #%d" % ts if op == "parent_set_cell" else "slice #%d of v#%s" % (ts, pslot)))
+        finally:
+            self.live.pop(ts)
+            self.views.discard(id(sv))
+
+    def _copy_set(self, sv, sm, sub):
+        """c = s.copy(); replace one cell of c: only that cell of c changes (and nothing in s)"""
+        c = self.must("s.copy()", sv.copy)
+        cm = sm.copy()
+        p = vec_problem(c, cm, meta=False)
+        if p:
+            self.viol("copy() of a slice result: %s" % p)
+        idx = [sub["idx"][d] % cm.shape[d] for d in range(cm.ndim)]
+        rows = rows_for(sub["seed"], sub["rows"], cm.k)
+        arr = as_array(rows, cm.k)
+        key = idx[0] if cm.ndim == 1 else tuple(idx)
+        self.must("c = s.copy(); c[%r] = array%r" % (key, arr.shape), lambda: c.__setitem__(key, arr))
+        cm.set_cell(idx, rows)
+        p = vec_problem(c, cm, meta=False)
+        if p:
+            self.viol("c = s.copy(); c[%r] = array%r: afterwards c has %s" % (key, arr.shape, p))
+        self.classes.append("slice_mutate:copy_set")
 
     def _take_slice(self, step, s, v, m):
         """held = v[expr] with every addressed cell populated first (a Vector right-hand side needs populated
